@@ -57,4 +57,5 @@ def cases(tier, seed=0):
             sm = var + ((("Sx",) if dd == (2, 2) else ()))
             out.append(make_case(PROP, "bayes", kind, dd[0], dd[1], 1, 1, semi=sm, timeout=600))
             out.append(make_case(PROP, "bayes", kind, 1, 1, 2, 1, semi=var, timeout=600))
+            out.append(make_case(PROP, "roundtrip", kind, 1, 1, 1, 1, semi=var, timeout=600))
     return out
